@@ -2,14 +2,15 @@
 
 Bounded-exhaustive enumeration, exhaustive in the VALUE dimension (executor: harness/c17_pcm.c).
  (a) twin handles: ov_read(A) against ov_read_float(B) on the same file at every position reached by reading through,
-     for all 8 formats x every buffer length 0 .. 2 frames+1 plus {4096, 65536}, on encoder-made streams with
+     for all 8 formats x every buffer length 0 .. 2 frames+1 plus {4096, 65536} (quick thins the 1022 lengths of the
+     255-channel stream to every 13th plus +-3 around 0, 1 and 2 frames), on encoder-made streams with
      1, 2, 3, 6 and 255 channels, a chain whose links have 2, 1 and 3 channels, and three "loud" streams (valid streams whose
      residue codebooks are declared 2^1, 2^17, 2^31 times larger, so that the decoded PCM is far outside +-1);
      non-positive word sizes.
  (b) value enumeration through the real packing loops: the filter callback of ov_read_filter overwrites the decoded
      block with float bit patterns; quick: a stratified boundary set (every exponent, every integer and half-step of
-     both grids +-3 ulp, conversion-overflow boundaries) x 8 formats plus ALL 2^32 patterns for 16-bit signed
-     little-endian; thorough: ALL 2^32 patterns x 8 formats.
+     both grids +-3 ulp, conversion-overflow boundaries) x 8 formats, plus every pattern with 2^-17 <= |x| < 4 for
+     16-bit signed little-endian and 2^-9 <= |x| < 4 for 8-bit unsigned; thorough: ALL 2^32 patterns x 8 formats.
 """
 import os, sys, json, time, struct, subprocess, random
 import vlib
@@ -129,7 +130,11 @@ def make_cases(tier, S):
         _, ch = S[name]
         for f in range(8):
             frame = fmt_word(f) * ch
-            for ln in list(range(0, 2 * frame + 2)) + [4096, 65536]:
+            lens = list(range(0, 2 * frame + 2))
+            if tier == 'quick' and ch > 16:
+                # 255 channels, quick: all lengths around 0, 1 frame and 2 frames, every 13th in between (thorough: all of them)
+                lens = sorted(set(l for l in lens if l % 13 == 0 or min(abs(l - b) for b in (0, frame, 2 * frame)) <= 3))
+            for ln in lens + [4096, 65536]:
                 pre.append(('T', name, f, ln))
         for w in (0, -1, -2147483648):
             for ln in (0, 1, 2 * ch, 4096):
@@ -139,14 +144,23 @@ def make_cases(tier, S):
         for f in range(8):
             for part in range(nparts):
                 pre.append(('G', name, f, part, nparts))
-    # format order = priority: a run cut by the deadline still completes whole formats (16-bit signed LE, 8-bit unsigned first)
-    full = [6, 0, 5, 4, 2, 7, 1, 3] if tier == 'thorough' else [6]
-    for f in full:
-        ln = 1024 * 2 * fmt_word(f) + 5     # one long block of the carrier stream plus a tail that must stay untouched
-        blk = [('V', 'c17_v2', f, sl << SLICE_BITS, (sl + 1) << SLICE_BITS, ln) for sl in range(NSLICE)]
-        if vlib.SEED:
-            random.Random(vlib.SEED + f).shuffle(blk)    # order only: a capped run does not always cut the same tail
-        val += blk
+    if tier == 'thorough':
+        # ALL 2^32 patterns per format; format order = priority, so that a run cut by the deadline still completes whole formats
+        for f in [6, 0, 5, 4, 2, 7, 1, 3]:
+            ln = 1024 * 2 * fmt_word(f) + 5     # one long block of the carrier stream plus a tail that must stay untouched
+            blk = [('V', 'c17_v2', f, sl << SLICE_BITS, (sl + 1) << SLICE_BITS, ln) for sl in range(NSLICE)]
+            if vlib.SEED:
+                random.Random(vlib.SEED + f).shuffle(blk)    # order only: a capped run does not always cut the same tail
+            val += blk
+    else:
+        # quick: every float of both signs in the band where the result is neither trivially 0 nor trivially a rail:
+        # 16-bit signed LE: 2^-17 <= |x| < 4 (exponent fields 110..128), 8-bit unsigned: 2^-9 <= |x| < 4 (118..128)
+        for f, e0 in ((6, 110), (0, 118)):
+            ln = 1024 * 2 * fmt_word(f) + 5
+            for e in range(e0, 129):
+                for sg in (0, 1):
+                    lo = (sg << 31) | (e << 23)
+                    val.append(('V', 'c17_v2', f, lo, lo + (1 << 23), ln))
     return pre, val
 
 
@@ -186,6 +200,7 @@ def evaluate(chk, cases, res, S, agg):
                 agg['vjudged'][f] += int(d['n'])
                 agg['vnan'][f] += int(d['nan'])
                 agg['vslices'][f] += 1
+                agg['vcover'][f] += c[4] - c[3]
             if kind == 'G':
                 agg['gjudged'] += int(d['n'])
             if kind == 'T':
@@ -210,7 +225,7 @@ def evaluate(chk, cases, res, S, agg):
                 e[0] += b1
                 e[1] += int(d['n'])
             else:
-                agg['k1'][f]['n'] += b1
+                agg['k1'][f]['n' if kind == 'V' else 'nenv'] += b1
                 agg['k1'][f]['contig' if kind == 'V' else 'env'] += rs
                 if agg['k1'][f]['case'] is None or kind == 'V' and agg['k1'][f]['case'][0] != 'V':
                     agg['k1'][f]['case'] = c
@@ -223,7 +238,7 @@ def evaluate(chk, cases, res, S, agg):
         if what != '-' or b2:
             fl = classify_failure(c, status, d)
             if b2 and not any(k.startswith('value_mispacked') for k, _ in fl):
-                fl.append((f'value_mispacked:{fmt_name(f)}:unlisted', f'{kind} case on {c[1]}: {b2} mismatches beyond the run list: {(line or "")[:200]}'))
+                fl.append((f'value_mispacked:{fmt_name(f) if f is not None else "word"}:unlisted', f'{kind} case on {c[1]}: {b2} mismatches beyond the run list: {(line or "")[:200]}'))
             for key, desc in fl:
                 agg['other'].append((key, desc, c))
         elif status == 'bad' and not b1:
@@ -237,9 +252,9 @@ def run(tier):
     exe = vlib.harness('plain', 'c17_pcm')
     S = streams(tier)
     pre, val = make_cases(tier, S)
-    agg = {'cls': [[0] * len(CLS) for _ in range(8)], 'vjudged': [0] * 8, 'vnan': [0] * 8, 'vslices': [0] * 8, 'gjudged': 0, 'tjudged': 0, 'tbig': 0,
+    agg = {'cls': [[0] * len(CLS) for _ in range(8)], 'vjudged': [0] * 8, 'vnan': [0] * 8, 'vslices': [0] * 8, 'vcover': [0] * 8, 'gjudged': 0, 'tjudged': 0, 'tbig': 0,
            'rej': 0, 'wrej': 0, 'einval': 0, 'reads': 0, 'multi': 0, 'maxch': 0, 'chain_reads': 0, 'skipped': [],
-           'k1': [{'n': 0, 'contig': [], 'env': [], 'case': None} for _ in range(8)], 'k1twin': {}, 'other': []}
+           'k1': [{'n': 0, 'nenv': 0, 'contig': [], 'env': [], 'case': None} for _ in range(8)], 'k1twin': {}, 'other': []}
     budget = 150 if tier == 'quick' else 22 * 60
     deadline = int(t0 + budget)
     # the small batch (twin / refusal / boundary-set cases, ~100 CPU s) carries every vacuity guard: no cap in quick
@@ -255,21 +270,25 @@ def run(tier):
     nfail = 0
     for f in [6, 0, 4, 5, 7, 1, 2, 3]:
         k = agg['k1'][f]
-        if not k['n']:
+        if not (k['n'] or k['nenv']):
             continue
         nfail += 1
         scale = 128.0 if fmt_word(f) == 1 else 32768.0
         if k['contig']:
             mr = merge_ranges(k['contig'])
             how = 'contiguous, every pattern in the range'
+            cnt = k['n']
         else:
             mr = merge_ranges(k['env'])
             how = 'envelope of the boundary-set members that failed'
+            cnt = k['nenv']
+        if not mr:      # the executor's run list was used up by other mismatches
+            mr = merge_ranges(k['env'])
+            how, cnt = 'ranges not listed by the executor', k['n'] + k['nenv']
         rtxt = ', '.join(f'0x{lo:08x}..0x{hi:08x} = {bits_float(lo)!r}..{bits_float(hi)!r} -> {got}' for lo, hi, got in mr[:4]) + (' ...' if len(mr) > 4 else '')
-        groups.setdefault(f'{k["n"]} values ({how}) {rtxt}; x*{scale:g} >= 2^31', []).append(f)
-        lo0 = mr[0][0]
+        groups.setdefault(f'{cnt} values ({how}) {rtxt}; x*{scale:g} >= 2^31', []).append(f)
         if first_replay is None:
-            first_replay = {'case': ('V', 'c17_v2', f, lo0, lo0 + 1, 1024 * 2 * fmt_word(f) + 5), 'tier': tier}
+            first_replay = {'case': ('V', 'c17_v2', f, mr[0][0], mr[0][0] + 1, 1024 * 2 * fmt_word(f) + 5) if mr else k['case'], 'tier': tier}
     for txt, fs in groups.items():
         lines.append('/'.join(fmt_name(f) for f in fs) + ' [' + ', '.join(sorted(set(fmt_path(f) for f in fs))) + ']: ' + txt)
     tw = []
@@ -293,20 +312,21 @@ def run(tier):
 
     # ---------------------------------------------------------------- coverage
     combos = [(fmt_name(f), CLS[i]) for f in range(8) for i in range(len(CLS)) if agg['cls'][f][i] > 0]
-    full = [f for f in range(8) if agg['vslices'][f] == NSLICE]
+    full = [f for f in range(8) if agg['vcover'][f] == 1 << 32]
     exhaustive = not agg['skipped']
     chk.cov.update({
         'distinct_nontrivial': len(combos),
         'exhaustive': exhaustive,
         'rule': 'cases: T = (stream, format, buffer length) twin read-through, all 8 formats x lengths 0..2 frames+1, 4096, 65536 x every position reached; '
                 'W = non-positive word {0,-1,INT_MIN} x 4 lengths; G = slice of the stratified boundary float set through ov_read_filter on a 2- and a 3-channel stream; '
-                'V = 2^24-pattern slice of ALL float bit patterns through ov_read_filter (%s). '
+                'V = contiguous block of float bit patterns through ov_read_filter (%s). '
                 'distinct_nontrivial = distinct (format, value class) pairs for which at least one sample was judged against the reference; '
-                'classes: %s' % ('all 8 formats' if tier == 'thorough' else 'format w2sle only in quick', ', '.join(CLS)),
+                'classes: %s' % ('ALL 2^32 patterns in 256 slices for each of the 8 formats' if tier == 'thorough' else 'quick: every pattern with 2^-17 <= |x| < 4 for w2sle and 2^-9 <= |x| < 4 for w1ule', ', '.join(CLS)),
         'samples': [case_line(c, {k: (k, v[1]) for k, v in S.items()}) for c in (pre[:3] + pre[len(pre) // 2:len(pre) // 2 + 2] + [x for x in pre if x[0] == 'W'][:2] + [x for x in pre if x[0] == 'G'][:2] + val[:3])],
         'format_value_classes': {fmt_name(f): {CLS[i]: agg['cls'][f][i] for i in range(len(CLS))} for f in range(8)},
         'formats_with_all_2^32_patterns': [fmt_name(f) for f in full],
         'value_slices_done': {fmt_name(f): agg['vslices'][f] for f in range(8)},
+        'contiguous_patterns_enumerated': {fmt_name(f): agg['vcover'][f] for f in range(8)},
         'values_judged_filter_full': sum(agg['vjudged']), 'nan_patterns_excluded_full': sum(agg['vnan']),
         'values_judged_filter_boundary_set': agg['gjudged'], 'samples_judged_twin': agg['tjudged'], 'twin_samples_beyond_int_range': agg['tbig'],
         'twin_reads': agg['reads'], 'small_buffer_refusals': agg['rej'], 'nonpositive_word_refusals': agg['wrej'], 'refusals_with_OV_EINVAL': agg['einval'],
@@ -332,10 +352,13 @@ def run(tier):
     chk.guard(agg['rej'] > 0 and agg['wrej'] > 0, 'small-buffer and non-positive-word refusals were observed')
     chk.guard(agg['tbig'] > 0, 'the twin check met samples of a valid stream whose scaled value is beyond the int range')
     chk.guard(sys.byteorder == 'little', 'host is little-endian (format -> loop mapping)')
-    if exhaustive:
-        want = range(8) if tier == 'thorough' else [6]
-        chk.guard(all(agg['vjudged'][f] + agg['vnan'][f] == 1 << 32 and agg['vnan'][f] == NAN_PATTERNS for f in want) or bool(agg['other']),
-                  'every one of the 2^32 bit patterns was packed once per fully enumerated format (2^32 - 16777214 NaNs judged)')
+    if not agg['other']:
+        chk.guard(all(agg['vjudged'][f] + agg['vnan'][f] == agg['vcover'][f] for f in range(8)), 'every enumerated bit pattern was packed and compared exactly once (judged + NaN == enumerated)')
+    if exhaustive and tier == 'thorough' and not agg['other']:
+        chk.guard(all(agg['vcover'][f] == 1 << 32 and agg['vnan'][f] == NAN_PATTERNS for f in range(8)),
+                  'all 2^32 bit patterns per format (2^32 - 16777214 NaNs judged)')
+    if exhaustive and tier == 'quick':
+        chk.guard(agg['vcover'][6] == 38 << 23 and agg['vcover'][0] == 22 << 23, 'quick band sweep complete: 38 resp. 22 sign x exponent blocks of 2^23 patterns')
     return chk.finish()
 
 
